@@ -17,6 +17,10 @@ pub struct Plan {
     /// max input length for the adversarial scenario (quick, thorough)
     pub adv_len: (usize, usize),
     pub level: &'static str,
+    /// every n-th run is a threshold-probing run (one long clean element at a scanner threshold,
+    /// a boundary byte near the threshold): a prefix sweep, or a reuse history where the
+    /// pattern says Reuse
+    pub thresh_every: u64,
 }
 
 const RR: &[Kind] = &[Kind::Req, Kind::Resp];
@@ -39,6 +43,11 @@ pub fn plan(id: usize) -> Option<Plan> {
         thorough_runs: t,
         adv_len: (256 * 1024, 1024 * 1024),
         level,
+        thresh_every: match id {
+            11 => 25,
+            13 | 18 => 40,
+            _ => 250,
+        },
     };
     Some(match id {
         1 => p(&[1], &[Conn, Sweep, Conn, Sweep, Adversarial, Reuse], GenOpts { kinds: ALL, ..d }, 650_000, 12_000_000, "exploration"),
@@ -55,7 +64,7 @@ pub fn plan(id: usize) -> Option<Plan> {
         13 => p(&[13], &[Conn, Sweep, Adversarial], GenOpts { kinds: ALL, ..d }, 400_000, 8_000_000, "exploration"),
         14 => p(&[14], &[Conn, Sweep, Conn, Sweep, Adversarial], GenOpts { kinds: RR, ..d }, 750_000, 12_000_000, "exploration"),
         15 => p(&[15], &[Conn, Sweep], GenOpts { kinds: RR, ..d }, 250_000, 5_000_000, "exploration"),
-        16 => p(&[16], &[Conn, Sweep], GenOpts { kinds: RR, ..d }, 375_000, 8_000_000, "exploration"),
+        16 => p(&[16], &[Conn, Sweep, Reuse], GenOpts { kinds: RR, ..d }, 375_000, 8_000_000, "exploration"),
         17 => p(&[17], &[Conn, Sweep, Reuse, Sweep, Adversarial], GenOpts { kinds: MSG3, ..d }, 300_000, 6_000_000, "fault_enumeration"),
         18 => p(&[18], &[Reuse, Reuse, Conn], GenOpts { kinds: RR, ..d }, 750_000, 12_000_000, "exploration"),
         19 => p(&[19], &[Conn, Sweep, Adversarial, Reuse], GenOpts { kinds: ALL, ..d }, 650_000, 12_000_000, "exploration"),
@@ -74,7 +83,12 @@ impl Plan {
         if thorough && index % 1000 == 999 && matches!(self.id, 5 | 6 | 7 | 8 | 10 | 14 | 1 | 11) {
             scen = ByteSweep;
         }
+        // threshold probing: a fixed share of every plan (the slot keeps the scenario kind of the
+        // pattern where it is Reuse, and is a prefix sweep otherwise)
+        let thresh = index % self.thresh_every == self.thresh_every - 1 && scen != ByteSweep && scen != Adversarial;
         let mut t = match scen {
+            Reuse if thresh => gen::gen_thresh_reuse(run_seed, &self.opts),
+            Conn | Sweep if thresh => gen::gen_thresh_sweep(run_seed, &self.opts),
             Conn => gen::gen_conn(run_seed, &self.opts),
             Sweep => gen::gen_sweep(run_seed, &self.opts),
             Reuse => gen::gen_reuse(run_seed, &self.opts),
